@@ -164,6 +164,8 @@ def build(spec):
         return tuple(build(v) for v in spec["items"])
     elif g == "inf":
         return float("inf")
+    elif g == "qscalar":
+        return np.quaternion(*[float(v) for v in spec["q"]])
     elif g == "scale_val":
         return float(spec["v"])
     else:
